@@ -1,6 +1,7 @@
 import HbsModel.Registry
 import HbsModel.Lemmas.RM
 import HbsModel.Lemmas.Write
+import HbsModel.Lemmas.Induct
 /-
   C08  Rendering is compositional: a finished construct leaves no trace on its siblings.
 -/
@@ -81,7 +82,7 @@ theorem frame_html_escape (reg : Registry) (root : Json) (fuel : Nat) (ht : Help
     (rc rc' : RC) (out out' : Out)
     (h : renderElem reg root (fuel + 1) (.html ht) rc out = .ok () rc' out') :
     rc'.disableEscape = false := by
-  simp only [renderElem, RM.bind_def, RM.bnd_apply, RM.modify_apply] at h
+  simp only [renderElem, RM.escOffReset, RM.bracket_apply] at h
   split at h <;> simp_all
   obtain ⟨h1, _⟩ := h
   rw [← h1]
@@ -94,5 +95,258 @@ theorem with_push_pop (b : Block) (bs : List Block) : (b :: bs).drop 1 = bs := r
     C09.partial_block_binding_restored (before the repair the binding – then a depth counter – was
     changed by every inclusion and not restored, which broke a second `{{> @partial-block}}`). -/
 theorem binding_is_part_of_the_frame (a b : RC) (h : sameScope a b) : a.pbBinding = b.pbBinding := h.2.2.2.2.2.2.2.1
+
+end Hbs.C08
+
+/-! ### the frame theorem – for the whole renderer: a finished construct leaves the current context, the
+    `../` chain and the @-variables (all held in the scope stack), the indentation, what `@partial-block`
+    denotes, and escaping as it found them.  Only inline-partial definitions, decorator effects, the
+    template name and the write-state flags may differ afterwards. -/
+namespace Hbs.C08
+open Hbs RM
+
+/-- the frame after (`rc'`) against the frame before (`rc`) -/
+structure FrameEq (rc rc' : RC) : Prop where
+  blocks : rc'.blocks = rc.blocks
+  indent : rc'.indentString = rc.indentString
+  pbStack : rc'.pbStack = rc.pbStack
+  pbBinding : rc'.pbBinding = rc.pbBinding
+  /-- escaping that was on is on again -/
+  esc : rc.disableEscape = false → rc'.disableEscape = false
+
+/-- the same, except that the innermost block may have been rewritten (the iteration of `each`) -/
+structure FrameWeak (rc rc' : RC) : Prop where
+  tail : rc'.blocks.drop 1 = rc.blocks.drop 1
+  depth : rc'.blocks.length = rc.blocks.length
+  indent : rc'.indentString = rc.indentString
+  pbStack : rc'.pbStack = rc.pbStack
+  pbBinding : rc'.pbBinding = rc.pbBinding
+  esc : rc.disableEscape = false → rc'.disableEscape = false
+
+theorem FrameEq.refl (rc : RC) : FrameEq rc rc := ⟨rfl, rfl, rfl, rfl, id⟩
+theorem FrameEq.trans {a b c : RC} (h1 : FrameEq a b) (h2 : FrameEq b c) : FrameEq a c :=
+  ⟨h2.blocks.trans h1.blocks, h2.indent.trans h1.indent, h2.pbStack.trans h1.pbStack,
+   h2.pbBinding.trans h1.pbBinding, fun h => h2.esc (h1.esc h)⟩
+theorem FrameEq.weak {a b : RC} (h : FrameEq a b) : FrameWeak a b :=
+  ⟨by rw [h.blocks], by rw [h.blocks], h.indent, h.pbStack, h.pbBinding, h.esc⟩
+theorem FrameWeak.refl (rc : RC) : FrameWeak rc rc := (FrameEq.refl rc).weak
+theorem FrameWeak.trans {a b c : RC} (h1 : FrameWeak a b) (h2 : FrameWeak b c) : FrameWeak a c :=
+  ⟨h2.tail.trans h1.tail, h2.depth.trans h1.depth, h2.indent.trans h1.indent, h2.pbStack.trans h1.pbStack,
+   h2.pbBinding.trans h1.pbBinding, fun h => h2.esc (h1.esc h)⟩
+
+/-- a computation that, when it succeeds, leaves the frame as it found it -/
+def Framed {α : Type} (x : RM α) : Prop := ∀ rc out a rc' out', x rc out = .ok a rc' out' → FrameEq rc rc'
+def FramedW {α : Type} (x : RM α) : Prop := ∀ rc out a rc' out', x rc out = .ok a rc' out' → FrameWeak rc rc'
+
+theorem framed_of_state_free {α : Type} (x : RM α)
+    (h : ∀ rc out a rc' out', x rc out = .ok a rc' out' → rc' = rc) : Framed x := by
+  intro rc out a rc' out' hx
+  rw [h rc out a rc' out' hx]; exact FrameEq.refl _
+
+theorem framed_bnd {α β : Type} (x : RM α) (f : α → RM β) (hx : Framed x) (hf : ∀ a, Framed (f a)) :
+    Framed (RM.bnd x f) := by
+  intro rc out b rc2 out2 h
+  rw [RM.bnd_apply] at h
+  cases hr : x rc out with
+  | ok a rc1 out1 => rw [hr] at h; exact (hx rc out a rc1 out1 hr).trans (hf a rc1 out1 b rc2 out2 h)
+  | err e o => rw [hr] at h; cases h
+  | panic s => rw [hr] at h; cases h
+  | fuel => rw [hr] at h; cases h
+
+theorem framedW_bnd {α β : Type} (x : RM α) (f : α → RM β) (hx : FramedW x) (hf : ∀ a, FramedW (f a)) :
+    FramedW (RM.bnd x f) := by
+  intro rc out b rc2 out2 h
+  rw [RM.bnd_apply] at h
+  cases hr : x rc out with
+  | ok a rc1 out1 => rw [hr] at h; exact (hx rc out a rc1 out1 hr).trans (hf a rc1 out1 b rc2 out2 h)
+  | err e o => rw [hr] at h; cases h
+  | panic s => rw [hr] at h; cases h
+  | fuel => rw [hr] at h; cases h
+
+theorem framed_write (s : Str) : Framed (RM.write s) := by
+  apply framed_of_state_free
+  intro rc out a rc' out' h
+  unfold RM.write at h
+  split at h
+  · cases h; rfl
+  · split at h
+    · cases h
+    · cases h; rfl
+
+theorem framed_modifyAux (f : RC → RC) : Framed (RM.modifyAux f) := by
+  intro rc out a rc' out' h
+  rw [RM.modifyAux_apply] at h
+  cases h
+  exact ⟨rfl, rfl, rfl, rfl, id⟩
+
+theorem framedW_frontMod (f : Block → Block) : FramedW (modifyFrontBlock f) := by
+  intro rc out a rc' out' h
+  unfold modifyFrontBlock at h
+  rw [RM.modify_apply] at h
+  cases h
+  cases hb : rc.blocks with
+  | nil => exact FrameWeak.refl _
+  | cons b rest => exact ⟨by simp [hb], by simp [hb], rfl, rfl, rfl, id⟩
+
+theorem framed_mapErr {α : Type} (x : RM α) (g : RenderError → RenderError) (hx : Framed x) : Framed (RM.mapErr x g) := by
+  intro rc out a rc' out' h
+  unfold RM.mapErr at h
+  cases hr : x rc out with
+  | ok a1 rc1 o1 => rw [hr] at h; cases h; exact hx rc out _ _ _ hr
+  | err e o => rw [hr] at h; cases h
+  | panic s => rw [hr] at h; cases h
+  | fuel => rw [hr] at h; cases h
+
+theorem framed_captured {α : Type} (x : RM α) (hx : Framed x) : Framed (RM.captured x) := by
+  intro rc out a rc' out' h
+  unfold RM.captured at h
+  cases hr : x rc {} with
+  | ok a1 rc1 o1 => rw [hr] at h; cases h; exact hx rc {} _ _ _ hr
+  | err e o => rw [hr] at h; cases h
+  | panic s => rw [hr] at h; cases h
+  | fuel => rw [hr] at h; cases h
+
+/-- `push_block` … `pop_block` around a body that keeps the rest of the stack: the stack is as before -/
+theorem framed_withBlock {α : Type} (b : Block) (x : RM α) (hx : FramedW x) : Framed (RM.withBlock b x) := by
+  intro rc out a rc' out' h
+  unfold RM.withBlock at h
+  rw [RM.bracket_apply] at h
+  cases hr : x { rc with blocks := b :: rc.blocks } out with
+  | ok a1 rc1 o1 =>
+    rw [hr] at h; cases h
+    have hw := hx _ out _ _ _ hr
+    exact ⟨by simpa using hw.tail, hw.indent, hw.pbStack, hw.pbBinding, hw.esc⟩
+  | err e o => rw [hr] at h; cases h
+  | panic s => rw [hr] at h; cases h
+  | fuel => rw [hr] at h; cases h
+
+theorem framed_escOffReset {α : Type} (x : RM α) (hx : Framed x) : Framed (RM.escOffReset x) := by
+  intro rc out a rc' out' h
+  unfold RM.escOffReset at h
+  rw [RM.bracket_apply] at h
+  cases hr : x { rc with disableEscape := true } out with
+  | ok a1 rc1 o1 =>
+    rw [hr] at h; cases h
+    have hw := hx _ out _ _ _ hr
+    exact ⟨hw.blocks, hw.indent, hw.pbStack, hw.pbBinding, fun _ => rfl⟩
+  | err e o => rw [hr] at h; cases h
+  | panic s => rw [hr] at h; cases h
+  | fuel => rw [hr] at h; cases h
+
+theorem framed_escOffSaved {α : Type} (x : RM α) (hx : Framed x) : Framed (RM.escOffSaved x) := by
+  intro rc out a rc' out' h
+  unfold RM.escOffSaved at h
+  rw [RM.bracket_apply] at h
+  cases hr : x { rc with disableEscape := true } out with
+  | ok a1 rc1 o1 =>
+    rw [hr] at h; cases h
+    have hw := hx _ out _ _ _ hr
+    exact ⟨hw.blocks, hw.indent, hw.pbStack, hw.pbBinding, fun hd => hd⟩
+  | err e o => rw [hr] at h; cases h
+  | panic s => rw [hr] at h; cases h
+  | fuel => rw [hr] at h; cases h
+
+/-- a partial inclusion: whatever scope, indentation and binding the partial ran in, the caller's are back -/
+theorem framed_partialScope (isPB : Bool) (merged : Json) (indent : Option Str) (pb : Option Tmpl) (x : RM Unit)
+    (hx : Framed x) : Framed (RM.partialScope isPB merged indent pb x) := by
+  intro rc out a rc' out' h
+  unfold RM.partialScope at h
+  rw [RM.bracket_apply] at h
+  split at h
+  · rename_i a1 rc1 o1 hr
+    cases h
+    have hw := hx _ out _ _ _ hr
+    refine ⟨rfl, rfl, ?_, rfl, ?_⟩
+    · -- the pushed body (if any) is dropped again
+      have hps := hw.pbStack
+      cases pb with
+      | none => cases isPB <;> simpa using hps
+      | some t => cases isPB <;> simp_all
+    · intro hd
+      have := hw.esc
+      cases pb <;> cases isPB <;> simp_all
+  · rename_i hne
+    cases hr : x _ out with
+    | ok a1 rc1 o1 => exact absurd hr (hne a1 rc1 o1)
+    | err e o => rw [hr] at h; cases h
+    | panic s => rw [hr] at h; cases h
+    | fuel => rw [hr] at h; cases h
+
+theorem framed_ret {α : Type} (a : α) : Framed (RM.ret a) :=
+  framed_of_state_free _ (fun rc out b rc' out' h => by cases h; rfl)
+theorem framed_throw {α : Type} (e : RenderError) : Framed (RM.throw e : RM α) := fun rc out a rc' out' h => by cases h
+theorem framed_throwR {α : Type} (r : RReason) : Framed (RM.throwR r : RM α) := framed_throw _
+theorem framed_panic {α : Type} (s : String) : Framed (RM.panic s : RM α) := fun rc out a rc' out' h => by cases h
+
+theorem framed_navigate (root : Json) (segs : List PathSeg) (blocks : List Block) : Framed (navigate root segs blocks) := by
+  unfold navigate
+  simp only [RM.pure_def]
+  repeat' with_reducible first
+    | exact framed_ret _
+    | exact framed_throw _
+    | exact framed_throwR _
+    | exact framed_panic _
+    | split
+
+/-- the frame property as a closed predicate -/
+def framePred : RMPred where
+  P := fun x => Framed x
+  Q := fun x => FramedW x
+  sub := fun _ h rc out a rc' out' hx => (h rc out a rc' out' hx).weak
+  ret := framed_ret
+  bnd := framed_bnd
+  qbnd := framedW_bnd
+  get := framed_of_state_free _ (fun rc out b rc' out' h => by cases h; rfl)
+  modifyAux := framed_modifyAux
+  frontMod := framedW_frontMod
+  throw := framed_throw
+  outOfFuel := fun rc out a rc' out' h => by cases h
+  write := framed_write
+  mapErr := fun x g _ hx => framed_mapErr x g hx
+  captured := framed_captured
+  withBlock := framed_withBlock
+  escOffReset := framed_escOffReset
+  escOffSaved := framed_escOffSaved
+  partialScope := framed_partialScope
+  navigate := framed_navigate
+
+/-- **A finished construct leaves no trace on the frame** – for ANY template element (text, expression,
+    `{{{ }}}`, block helper with any body, partial, partial block, decorator), ANY data, registry and state:
+    when it has rendered, the scope stack (current context, `../` chain, @-variables, block parameters),
+    the indentation, the meaning of `@partial-block` and escaping are what they were before it. -/
+theorem finished_construct_restores_frame (reg : Registry) (root : Json) (fuel : Nat) (e : Elem)
+    (rc rc' : RC) (out out' : Out) (h : renderElem reg root fuel e rc out = .ok () rc' out') :
+    rc'.blocks = rc.blocks ∧ rc'.indentString = rc.indentString ∧ rc'.pbStack = rc.pbStack ∧
+    rc'.pbBinding = rc.pbBinding ∧ (rc.disableEscape = false → rc'.disableEscape = false) := by
+  have := (framePred.all reg root fuel).renderElem e rc out () rc' out' h
+  exact ⟨this.blocks, this.indent, this.pbStack, this.pbBinding, this.esc⟩
+
+/-- the same for a whole template, a helper call and a partial inclusion -/
+theorem template_restores_frame (reg : Registry) (root : Json) (fuel : Nat) (t : Tmpl)
+    (rc rc' : RC) (out out' : Out) (h : renderTemplate reg root fuel t rc out = .ok () rc' out') : FrameEq rc rc' :=
+  (framePred.all reg root fuel).renderTemplate t rc out () rc' out' h
+
+theorem helper_call_restores_frame (reg : Registry) (root : Json) (fuel : Nat) (d : HelperKind) (hi : HelperI)
+    (rc rc' : RC) (out out' : Out) (h : callHelper reg root fuel d hi rc out = .ok () rc' out') : FrameEq rc rc' :=
+  (framePred.all reg root fuel).callHelper d hi rc out () rc' out' h
+
+theorem partial_restores_frame (reg : Registry) (root : Json) (fuel : Nat) (d : DecoI)
+    (rc rc' : RC) (out out' : Out) (h : expandPartial reg root fuel d rc out = .ok () rc' out') : FrameEq rc rc' :=
+  (framePred.all reg root fuel).expandPartial d rc out () rc' out' h
+
+/-- the iteration of `each` only ever rewrites the block it iterates in -/
+theorem each_loop_keeps_outer_scopes (reg : Registry) (root : Json) (fuel : Nat) (t : Tmpl) (hi : HelperI)
+    (p : Option (List Str)) (len : Nat) (items : List (Nat × Option Str × Str × Json))
+    (rc rc' : RC) (out out' : Out) (h : eachLoop reg root fuel t hi p len items rc out = .ok () rc' out') :
+    rc'.blocks.drop 1 = rc.blocks.drop 1 ∧ rc'.blocks.length = rc.blocks.length := by
+  have := (framePred.all reg root fuel).eachLoop t hi p len items rc out () rc' out' h
+  exact ⟨this.tail, this.depth⟩
+
+/-- non-vacuity: a block helper over a body really runs with a deeper stack and comes back -/
+example : ∃ rc' out', renderElem Registry.new (.obj (.cons ['a'] (.num (.pos 1)) .nil)) 20
+    (.block { name := .name ['w', 'i', 't', 'h'], params := [.path (Path.new ['a'] [.named ['a']])], hash := [], blockParam := none,
+              template := some (.mk none [.raw ['x']] [(1, 1)]), inverse := none, block := true, chain := false,
+              indentBeforeWrite := false }) {} {} = .ok () rc' out' ∧ rc'.blocks = ({} : RC).blocks ∧ out'.text = ['x'] := by
+  refine ⟨_, _, rfl, rfl, rfl⟩
 
 end Hbs.C08
